@@ -63,17 +63,36 @@ type c17Step struct {
 }
 
 type c17Script struct {
-	Kind       string    `json:"kind"`
-	Cap0       int       `json:"cap0"`
-	Clients    int       `json:"clients"`
-	MinIter    int       `json:"minIter"`
-	HoldMax    int       `json:"holdMax"`
-	AcceptErrs int       `json:"acceptErrs"`
+	Kind       string `json:"kind"`
+	Cap0       int    `json:"cap0"`
+	Clients    int    `json:"clients"`
+	MinIter    int    `json:"minIter"`
+	HoldMax    int    `json:"holdMax"`
+	AcceptErrs int    `json:"acceptErrs"`
 	// Saturate: every accepted connection is held open until the whole change script has been
 	// issued (listener full, Accept blocked, more dials waiting), then the normal churn starts
 	Saturate bool      `json:"saturate,omitempty"`
 	Steps    []c17Step `json:"steps"`
+	// CloseFaults: that many connections of the churn report an error from their (first) Close
+	// although the connection is really closed (always < the smallest cap of the script).
+	// FaultWave: fault kind of the wave of faulty connections run at the final quiescent point.
+	CloseFaults int    `json:"closeFaults,omitempty"`
+	FaultWave   string `json:"faultWave,omitempty"`
 }
+
+// fault kinds of an inner connection / the inner listener (the inner connection is really closed
+// by every Close, whatever Close returns)
+const (
+	c17FCloseErrOnce   = "close-error-once"   // first Close returns an error, later ones nil
+	c17FCloseErrAlways = "close-error-always" // every Close returns an error
+	c17FReadErr        = "read-error-first"   // first Read fails: the handler closes at once
+	c17FWriteErr       = "write-error-first"  // handler greets, first Write fails: it closes at once
+	c17FAcceptErrs     = "accept-error-burst" // temporary inner Accept errors between the dials
+)
+
+var c17FaultKinds = []string{c17FCloseErrOnce, c17FCloseErrAlways, c17FReadErr, c17FWriteErr, c17FAcceptErrs}
+
+var errC17Injected = errors.New("c17: injected input/output error")
 
 type c17Change struct {
 	from, to int
@@ -101,11 +120,11 @@ type c17Mon struct {
 	epKind               string
 	lastApplied          string
 	accepts              int
-	closes      int
-	maxGauge    int
-	freedAtCap  bool
-	inInner     bool
-	history     []string
+	closes               int
+	maxGauge             int
+	freedAtCap           bool
+	inInner              bool
+	history              []string
 
 	events  int64 // progress counter (atomic)
 	aborted int32
@@ -149,8 +168,9 @@ type c17Dial struct {
 	id           int
 	srv          net.Conn
 	accepted     chan struct{}
-	clientClosed int32
+	clientClosed int32 // 1: the client closed, or the server side saw an injected Read/Write error (its handler may close)
 	err          bool
+	fault        string
 }
 
 type c17Inner struct {
@@ -200,14 +220,52 @@ func (in *c17Inner) Addr() net.Addr { return &net.TCPAddr{IP: net.IPv4(127, 0, 0
 
 type c17Conn struct {
 	net.Conn
-	mon  *c17Mon
-	dial *c17Dial
-	once sync.Once
+	mon                   *c17Mon
+	dial                  *c17Dial
+	once                  sync.Once
+	closeCalls, ioFaulted int32
 }
 
+// Close really closes the inner connection every time; what it REPORTS depends on the fault kind.
 func (c *c17Conn) Close() error {
 	c.once.Do(func() { c.mon.onClose(c) })
-	return c.Conn.Close()
+	err := c.Conn.Close()
+	n := atomic.AddInt32(&c.closeCalls, 1)
+	if n == 2 {
+		c.mon.r.Count("ll_inner_conn_closed_twice", 1)
+	}
+	switch c.dial.fault {
+	case c17FCloseErrOnce:
+		if n == 1 {
+			c.mon.r.Count("ll_inner_close_errors_returned", 1)
+			return errC17Injected
+		}
+	case c17FCloseErrAlways:
+		c.mon.r.Count("ll_inner_close_errors_returned", 1)
+		if n == 2 {
+			c.mon.r.Count("ll_inner_second_close_errors_returned", 1)
+		}
+		return errC17Injected
+	}
+	return err
+}
+
+func (c *c17Conn) Read(b []byte) (int, error) {
+	if c.dial.fault == c17FReadErr && atomic.CompareAndSwapInt32(&c.ioFaulted, 0, 1) {
+		atomic.StoreInt32(&c.dial.clientClosed, 1) // the handler closes because of this error
+		c.mon.r.Count("ll_inner_read_errors_returned", 1)
+		return 0, errC17Injected
+	}
+	return c.Conn.Read(b)
+}
+
+func (c *c17Conn) Write(b []byte) (int, error) {
+	if c.dial.fault == c17FWriteErr && atomic.CompareAndSwapInt32(&c.ioFaulted, 0, 1) {
+		atomic.StoreInt32(&c.dial.clientClosed, 1)
+		c.mon.r.Count("ll_inner_write_errors_returned", 1)
+		return 0, errC17Injected
+	}
+	return c.Conn.Write(b)
 }
 
 func (m *c17Mon) onAccept(c *c17Conn, waiting int) {
@@ -498,6 +556,19 @@ func c17GenScript(rng *rand.Rand, i int) *c17Script {
 			add(capv(), rng.Intn(2) == 0, gap())
 		}
 	}
+	// faults (drawn last: the change scripts of a seed stay what they were)
+	minCap := s.Cap0
+	for _, st := range s.Steps {
+		if st.Cap < minCap {
+			minCap = st.Cap
+		}
+	}
+	// (not in scripts with a grow through SetMaxConnection: its completion is not observable, the
+	// audit has to wait for it, and a lost slot would be a stall there instead of a verdict)
+	if cf := rng.Intn(minCap); rng.Intn(2) == 0 && !s.hasListenerVia() {
+		s.CloseFaults = cf // 0..minCap-1
+	}
+	s.FaultWave = c17FaultKinds[(i/len(kinds))%len(c17FaultKinds)]
 	return s
 }
 
@@ -570,7 +641,14 @@ func c17RunScript(r *kit.Run, s *c17Script, seed int64) {
 				defer handlers.Done()
 				defer atomic.AddInt64(&handlersActive, -1)
 				buf := make([]byte, 1)
-				for {
+				greetFailed := false
+				if lc, ok := c.(*limitListenerConn); ok {
+					if ic, ok := lc.Conn.(*c17Conn); ok && ic.dial.fault == c17FWriteErr {
+						_, err := c.Write([]byte{1})
+						greetFailed = err != nil
+					}
+				}
+				for !greetFailed {
 					if _, err := c.Read(buf); err != nil {
 						break
 					}
@@ -594,9 +672,14 @@ func c17RunScript(r *kit.Run, s *c17Script, seed int64) {
 
 	var stop int32
 	var dialSeq int64
+	closeFaultsLeft := int64(s.CloseFaults)
 	dialHold := func(hold int, sleepy bool) bool {
 		srv, cli := net.Pipe()
 		d := &c17Dial{id: int(atomic.AddInt64(&dialSeq, 1)), srv: srv, accepted: make(chan struct{})}
+		if hold%3 == 0 && atomic.LoadInt64(&closeFaultsLeft) > 0 && atomic.AddInt64(&closeFaultsLeft, -1) >= 0 {
+			d.fault = []string{c17FCloseErrOnce, c17FCloseErrAlways}[d.id%2]
+			r.Count("ll_churn_connections_with_close_error", 1)
+		}
 		select {
 		case in.q <- d:
 		case <-m.abort:
@@ -717,15 +800,20 @@ func c17RunScript(r *kit.Run, s *c17Script, seed int64) {
 		defer m.mu.Unlock()
 		return m.pending == 0
 	})
-	ok = ok && m.waitUntil("server side closes", func() bool {
+	quiet := func() bool {
 		m.mu.Lock()
 		defer m.mu.Unlock()
 		return m.gauge == 0 && atomic.LoadInt64(&handlersActive) == 0 && m.inInner && len(in.q) == 0
-	})
+	}
+	ok = ok && m.waitUntil("server side closes", quiet)
 	if ok {
 		r.Count("scripts_completed", 1)
-		if c17Audit(r, m, ll, s) {
-			c17Probe(r, m, in, s)
+		ctx := ""
+		if s.CloseFaults > 0 {
+			ctx = "after-churn-with-close-errors"
+		}
+		if c17Audit(r, m, ll, s, ctx, false) && c17Probe(r, m, in, s) {
+			c17FaultWave(r, m, in, ll, s, seed, quiet)
 		}
 	}
 	m.mu.Lock()
@@ -766,7 +854,10 @@ func c17Quiesce(m *c17Mon) {
 // parked inside the inner Accept holding exactly one slot) the free capacity must be exactly
 // cap-1.  The probe is AcquireWithContext with an already cancelled context, which never
 // blocks: it succeeds iff a slot is free.
-func c17Audit(r *kit.Run, m *c17Mon, ll *LimitListener, s *c17Script) bool {
+// ctx "" = plain script; otherwise the kind of faulty inner connections the listener has seen (part
+// of the signature).
+// settled: an exact audit has already passed since the last change, no grow can be on its way.
+func c17Audit(r *kit.Run, m *c17Mon, ll *LimitListener, s *c17Script, ctx string, settled bool) bool {
 	cctx, cancel := context.WithCancel(context.Background())
 	cancel()
 	probe := func() int {
@@ -783,7 +874,7 @@ func c17Audit(r *kit.Run, m *c17Mon, ll *LimitListener, s *c17Script) bool {
 	want := m.lastIssued - 1
 	m.mu.Unlock()
 	got := probe()
-	if got < want && s.hasListenerVia() {
+	if got < want && s.hasListenerVia() && !settled {
 		// the Release of a grow issued through SetMaxConnection has no completion signal;
 		// it may legitimately still be on its way
 		if !m.waitUntil("asynchronous grow of SetMaxConnection to land", func() bool { got = probe(); return got >= want }) {
@@ -802,8 +893,12 @@ func c17Audit(r *kit.Run, m *c17Mon, ll *LimitListener, s *c17Script) bool {
 				over = "with-overlap"
 			}
 		}
-		r.Violation("limitlistener:capacity-drift:"+dir+":"+over, map[string]interface{}{
-			"free_slots_found": got, "free_slots_expected": want, "final_cap": want + 1, "script": s, "history": m.history,
+		sig := "limitlistener:capacity-drift:" + dir + ":" + over
+		if ctx != "" {
+			sig += ":" + ctx
+		}
+		r.Violation(sig, map[string]interface{}{
+			"free_slots_found": got, "free_slots_expected": want, "final_cap": want + 1, "script": s, "history": m.history, "faults": ctx,
 		})
 		return false
 	}
@@ -812,7 +907,7 @@ func c17Audit(r *kit.Run, m *c17Mon, ll *LimitListener, s *c17Script) bool {
 
 // c17Probe: cap+2 clients against the final cap: exactly cap are let in (the accept check
 // refutes more), the others are held back, and closing one lets exactly one more in.
-func c17Probe(r *kit.Run, m *c17Mon, in *c17Inner, s *c17Script) {
+func c17Probe(r *kit.Run, m *c17Mon, in *c17Inner, s *c17Script) bool {
 	m.mu.Lock()
 	f := m.lastIssued
 	base := m.accepts
@@ -833,7 +928,7 @@ func c17Probe(r *kit.Run, m *c17Mon, in *c17Inner, s *c17Script) {
 		defer m.mu.Unlock()
 		return m.accepts-base >= f
 	}) {
-		return
+		return false
 	}
 	// close one accepted connection: one held-back dial must get through
 	var first *pc
@@ -846,7 +941,7 @@ func c17Probe(r *kit.Run, m *c17Mon, in *c17Inner, s *c17Script) {
 		}
 		return false
 	}) {
-		return
+		return false
 	}
 	atomic.StoreInt32(&first.d.clientClosed, 1)
 	first.cli.Close()
@@ -856,7 +951,7 @@ func c17Probe(r *kit.Run, m *c17Mon, in *c17Inner, s *c17Script) {
 		defer m.mu.Unlock()
 		return m.accepts-base >= f+1
 	}) {
-		return
+		return false
 	}
 	r.Count("final_probe_reuse_ok", 1)
 	for left := len(ps) - 1; left > 0; {
@@ -876,7 +971,7 @@ func c17Probe(r *kit.Run, m *c17Mon, in *c17Inner, s *c17Script) {
 				}
 				return false
 			}) {
-				return
+				return false
 			}
 			continue
 		}
@@ -885,17 +980,106 @@ func c17Probe(r *kit.Run, m *c17Mon, in *c17Inner, s *c17Script) {
 		pick.cli = nil
 		left--
 	}
-	m.waitUntil("final probe: drained", func() bool {
+	return m.waitUntil("final probe: drained", func() bool {
 		m.mu.Lock()
 		defer m.mu.Unlock()
 		return m.gauge == 0
 	})
 }
 
+// c17FaultWave: at the final quiescent point (audit and probe passed, nothing open) cap+1 more
+// clients connect, some of them over FAULTY inner connections / a faulty inner listener of ONE
+// kind (s.FaultWave): Close reports an error although it really closes (once / every time, the
+// handler closes twice in 1/4 of the connections), the first Read or the first Write fails so
+// that the handler closes at once, or the inner Accept fails temporarily between the dials.
+// Every client closes once it was accepted.  When all cap+1 connections have been closed by the
+// server (the inner connection's Close was called: it is closed whatever Close reported) and the
+// accept loop is parked again, every slot must be back: the same exact free-capacity audit.
+// Close-error faults are kept below the cap, so that a listener that loses their slots still
+// reaches the quiescent point (a lost slot is a verdict of the audit, not a stall).
+func c17FaultWave(r *kit.Run, m *c17Mon, in *c17Inner, ll *LimitListener, s *c17Script, seed int64, quiet func() bool) {
+	kind := s.FaultWave
+	if kind == "" || !m.waitUntil("fault wave: quiescent point before", quiet) {
+		return
+	}
+	m.mu.Lock()
+	f := m.lastIssued
+	base := m.accepts
+	m.mu.Unlock()
+	rng := rand.New(rand.NewSource(seed ^ 0xfa17))
+	total := f + 1
+	maxFaulty := total
+	if kind == c17FCloseErrOnce || kind == c17FCloseErrAlways {
+		maxFaulty = f - 1
+	}
+	if maxFaulty < 1 {
+		r.Count("ll_fault_wave_skipped_cap_1", 1)
+		return
+	}
+	nf := 1 + rng.Intn(maxFaulty)
+	faulty := map[int]bool{}
+	for _, k := range rng.Perm(total)[:nf] {
+		faulty[k] = true
+	}
+	type pc struct {
+		d   *c17Dial
+		cli net.Conn
+	}
+	var ps []*pc
+	for k := 0; k < total; k++ {
+		srv, cli := net.Pipe()
+		d := &c17Dial{id: 200000 + k, srv: srv, accepted: make(chan struct{})}
+		if faulty[k] {
+			if kind == c17FAcceptErrs {
+				for e := 1 + rng.Intn(3); e > 0; e-- {
+					in.q <- &c17Dial{err: true}
+					r.Count("accept_errors_injected", 1)
+					r.Count("ll_fault_wave_accept_errors_injected", 1)
+				}
+			} else {
+				d.fault = kind
+			}
+		}
+		ps = append(ps, &pc{d, cli})
+		in.q <- d
+	}
+	// every client closes once its dial was accepted (held back ones get in as slots come back)
+	for left := total; left > 0; {
+		var pick *pc
+		next := func() bool {
+			for _, p := range ps {
+				if p.cli != nil && c17Closed(p.d.accepted) {
+					pick = p
+					return true
+				}
+			}
+			return false
+		}
+		if !m.waitUntil("fault wave ("+kind+"): next dial accepted", next) {
+			return
+		}
+		atomic.StoreInt32(&pick.d.clientClosed, 1)
+		pick.cli.Close()
+		pick.cli = nil
+		left--
+	}
+	if !m.waitUntil("fault wave ("+kind+"): server side closes, accept loop parked", func() bool {
+		m.mu.Lock()
+		n := m.accepts - base
+		m.mu.Unlock()
+		return n >= total && quiet()
+	}) {
+		return
+	}
+	if c17Audit(r, m, ll, s, "after-faulty-connections:"+kind, true) {
+		r.Count("ll_fault_wave_audited:"+kind, 1)
+	}
+}
+
 func TestVerif_C17_LimitListener(t *testing.T) {
 	r := kit.Start(t, "C17")
 	defer r.Finish()
-	r.Rule("scripts over a real LimitListener wrapping a counting in-memory listener: 64 clients dial/hold/close concurrently (2-4+ connections each, random holds, handler closes twice in 1/4 of the connections, injected temporary Accept errors) while a controller runs a cap-change script of kind steady | grow | shrink-below-usage | shrink-then-grow back-to-back | shrink-grow sequential | repeated-identical | grow-then-shrink b2b | shrink-shrink b2b | sequential mix | random mix | saturated back-to-back mix (every accepted connection is held open, listener full, Accept blocked and dials waiting; then 3-6 changes are issued back-to-back without waiting for any done channel and without any close: shrinks below the usage, identical repeats of the value set last - also over a shrink that has not been applied -, grows and returns to earlier values; only then the connections are let go) (caps 1..20, completion observed through SetMaxCount's done channel; grows partly through SetMaxConnection); oracle: open connections <= cap in force at every accept, no connection closed before its client closed, exact free-capacity audit and cap+2 probe at the final quiescent point; distinct = (kind, cap0, #steps, max open, final cap)")
+	r.Rule("scripts over a real LimitListener wrapping a counting in-memory listener: 64 clients dial/hold/close concurrently (2-4+ connections each, random holds, handler closes twice in 1/4 of the connections, injected temporary Accept errors) while a controller runs a cap-change script of kind steady | grow | shrink-below-usage | shrink-then-grow back-to-back | shrink-grow sequential | repeated-identical | grow-then-shrink b2b | shrink-shrink b2b | sequential mix | random mix | saturated back-to-back mix (every accepted connection is held open, listener full, Accept blocked and dials waiting; then 3-6 changes are issued back-to-back without waiting for any done channel and without any close: shrinks below the usage, identical repeats of the value set last - also over a shrink that has not been applied -, grows and returns to earlier values; only then the connections are let go) (caps 1..20, completion observed through SetMaxCount's done channel; grows partly through SetMaxConnection); oracle: open connections <= cap in force at every accept, no connection closed before its client closed, exact free-capacity audit and cap+2 probe at the final quiescent point; FAULTY inner connections and listener: in half of the scripts without a SetMaxConnection step 0..mincap-1 connections of the churn report an error from Close (first call only / every call) although the inner connection is really closed, and after the final probe a wave of cap+1 clients connects of which 1..n use inner connections of one fault kind - close-error-once | close-error-always (fewer than cap of them) | read-error-first | write-error-first (the handler closes at once, before the client) | temporary inner Accept errors between the dials -; when every connection of the wave has been closed by the server and the accept loop is parked again the exact free-capacity audit is repeated (a connection the server has closed gives its slot back whatever Close/Read/Write reported); distinct = (kind, cap0, #steps, max open, final cap)")
 	r.Assume("caps >= 1 (HTTPServer spec minimum); cap in force while changes are outstanding = max of the caps involved; 'applied' = done channel of Semaphore.SetMaxCount closed for every outstanding change")
 	n := r.N(600, 20000)
 	for i := 0; i < n; i++ {
@@ -911,7 +1095,9 @@ func TestVerif_C17_LimitListener(t *testing.T) {
 		c17RunScript(r, s, rng.Int63())
 	}
 	for _, k := range []string{"accepts_reaching_cap", "held_back_dials_seen_at_cap", "released_capacity_reused", "change_grow", "change_shrink", "change_same", "capacity_audits", "final_probe_reuse_ok", "scripts_completed",
-		"ll_b2b_scripts_started_full_with_dials_waiting", "ll_identical_repeat_issued_over_unapplied_shrink", "ll_grow_issued_right_after_identical_repeat_over_unapplied_shrink"} {
+		"ll_b2b_scripts_started_full_with_dials_waiting", "ll_identical_repeat_issued_over_unapplied_shrink", "ll_grow_issued_right_after_identical_repeat_over_unapplied_shrink",
+		"ll_churn_connections_with_close_error", "ll_inner_close_errors_returned", "ll_inner_second_close_errors_returned", "ll_inner_conn_closed_twice", "ll_inner_read_errors_returned", "ll_inner_write_errors_returned", "ll_fault_wave_accept_errors_injected",
+		"ll_fault_wave_audited:" + c17FCloseErrOnce, "ll_fault_wave_audited:" + c17FCloseErrAlways, "ll_fault_wave_audited:" + c17FReadErr, "ll_fault_wave_audited:" + c17FWriteErr, "ll_fault_wave_audited:" + c17FAcceptErrs} {
 		r.Require(k, 1)
 	}
 }
